@@ -44,6 +44,8 @@ pub const STREAM_CLOSE: u64 = 40; // a      (harness lets the stream of actor a 
 pub const BCAST_BEGIN: u64 = 41; // a ty
 pub const TIMER_SLEEP: u64 = 42; // a k d    (timer task k of a starts sleeping d)
 
+pub const PROBE: u64 = 43; // a o  (the registry pings the instance it just spawned)
+
 // opk
 pub const K_SEND: u64 = 0;
 pub const K_CALL: u64 = 1;
